@@ -5,6 +5,7 @@
 From Coq Require Import List String NArith ZArith Bool.
 From Piko Require Import Base.Maps Base.Strs Gossip.Types Gossip.Local Gossip.Apply Gossip.Codec Gossip.World.
 From Piko Require Import Gossip.Decode GossipP.CodecP GossipP.ApplyP GossipP.WorldP GossipP.DecodeP.
+From Piko Require Import generated.Constants GossipP.ConstantsP.
 Import ListNotations.
 Open Scope string_scope. Open Scope list_scope. Open Scope N_scope.
 
@@ -96,6 +97,18 @@ Example C13_example_cut :
     cut_delta "a" "10.0.0.1:7000" dl 150 = Some parts /\ map (fun p => List.length (dp_ents p)) parts = [1%nat].
 Proof. cbn zeta. eexists; eexists. vm_compute. repeat split; discriminate. Qed.
 
+(* the message type bytes and the protocol version the codec model writes are those of the current source (regenerated
+   constants), and the four message types are distinct *)
+Theorem C13_packet_prefix_is_the_sources :
+  forall id addr req,
+  firstn 2 (digest_prefix id addr req) = [Z.to_N GoConst.messageTypeDigest; Z.to_N GoConst.supportedVersion] /\
+  firstn 2 (delta_prefix id addr) = [Z.to_N GoConst.messageTypeDelta; Z.to_N GoConst.supportedVersion].
+Proof. exact src_packet_prefix. Qed.
+
+Theorem C13_message_types_distinct :
+  NoDup [GoConst.messageTypeDigest; GoConst.messageTypeDelta; GoConst.messageTypeJoin; GoConst.messageTypeLeave].
+Proof. exact src_message_types_distinct. Qed.
+
 Print Assumptions C13_size_digest.
 Print Assumptions C13_size_delta.
 Print Assumptions C13_error_iff_header.
@@ -108,3 +121,5 @@ Print Assumptions C13_local_untouched.
 Print Assumptions C13_roundtrip_delta.
 Print Assumptions C13_roundtrip_digest.
 Print Assumptions C13_example_cut.
+Print Assumptions C13_packet_prefix_is_the_sources.
+Print Assumptions C13_message_types_distinct.
